@@ -255,6 +255,8 @@ class Stack:
         prot = self.prot
         d = prot.discovery
         if f == "start":
+            if prot.announcer.started or prot.subscriber.alive or self.conn_lost:
+                return "skip"
             prot.start()
         elif f == "stop":
             prot.stop()
@@ -313,6 +315,8 @@ class Stack:
             self.announced.discard(i)
             prot.announcer.stop_announce_service(self.instances[i])
         elif f == "ann_start":
+            if prot.announcer.started or self.conn_lost:
+                return "skip"
             prot.announcer.start()
         elif f == "ann_stop":
             prot.announcer.stop()
